@@ -172,6 +172,42 @@ def oracle(ck, tier, deep):
         if got[0] != want[0] or got[1] != want[1]:
             ck.violation(dict(site="find_origin", method="convolution", clause="symmetric-centre"), dict(shape=[3, cols] if it % 2 == 0 else [cols, 3], centre=list(want), sigma=sig_),
                          f"convolution returned {got} for broad content (sigma {sig_:.0f} px) symmetric about {want}")
+    # "symmetric images" may be signed (background-subtracted frames, difference images): the autoconvolution of a profile symmetric about
+    # c still peaks at c and nowhere else (Props/C13 `centre_is_unique_argmax` holds for every real profile) — with empty margins around
+    # the content, whose first non-zero sample is as often negative as positive
+    for it in range(40 if not deep else 400):
+        rows, cols = (int(v) for v in rng.integers(6, 30, size=2))
+        hr, hc = int(rng.integers(2, rows)), int(rng.integers(2, cols))
+        block = rng.normal(size=(hr, hc))
+        block = block + block[::-1, ::-1]
+        tr, tc = int(rng.integers(0, rows - hr + 1)), int(rng.integers(0, cols - hc + 1))
+        im = np.zeros((rows, cols))
+        im[tr:tr + hr, tc:tc + hc] = block
+        true = (tr + (hr - 1) / 2, tc + (hc - 1) / 2)
+        ck.count(("S.signed", hr % 2, hc % 2, tr > 0, tc > 0), suite="S.symmetric")
+        try:
+            got = quiet(find_origin, im, "convolution")
+        except Exception as e:
+            ck.violation(dict(site="find_origin", method="convolution", clause="exception"), dict(shape=[rows, cols], image=im.tolist()), f"{type(e).__name__}: {e}")
+            continue
+        # (the axis sums of a signed block can cancel to zero profiles; the centre is defined only for a non-zero profile)
+        ok0, ok1 = np.abs(im.sum(axis=1)).max() > 1e-9, np.abs(im.sum(axis=0)).max() > 1e-9
+        if (ok0 and got[0] != true[0]) or (ok1 and got[1] != true[1]):
+            ck.violation(dict(site="find_origin", method="convolution", clause="symmetric-centre-signed"), dict(shape=[rows, cols], centre=list(true), image=im.tolist()),
+                         f"convolution returned {got} for a signed image symmetric about {true}")
+    # one long axis (a 1100-row strip, a 1600-column strip): the Gaussian fit of a spot is as accurate as on a small frame
+    for (rows_, cols_), (cy_, cx_), sg_ in (((1100, 31), (431.3, 14.6), 9.0), ((31, 1600), (16.2, 1203.75), 14.0), ((1030, 25), (700.5, 12.0), 5.0)):
+        yy_, xx_ = np.mgrid[:rows_, :cols_]
+        im = 3.0 * np.exp(-((yy_ - cy_) ** 2 + (xx_ - cx_) ** 2) / (2 * sg_ ** 2))
+        ck.count(("S.gauss-long", rows_, cols_), suite="S.gaussian")
+        try:
+            got = quiet(find_origin, im, "gaussian")
+        except Exception as e:
+            ck.violation(dict(site="find_origin", method="gaussian", clause="exception"), dict(kind="long", shape=[rows_, cols_]), f"{type(e).__name__}: {e}")
+            continue
+        if max(abs(got[0] - cy_), abs(got[1] - cx_)) > 1e-3:
+            ck.violation(dict(site="find_origin", method="gaussian", clause="gaussian-centre"), dict(kind="long", shape=[rows_, cols_], centre=[cy_, cx_], sigma=sg_),
+                         f"gaussian fit on a {rows_}x{cols_} frame returned {got}, true centre {(cy_, cx_)}")
     # Gaussian fit on Gaussian spots (to fit accuracy), translation on the same: ordinary spots, spots sharper than a pixel (their
     # true amplitude is higher than any sample), and broad spots cut off unevenly by the frame (still exactly Gaussian axis sums)
     # … a lattice of narrow spots (σ from 0.4 to 1 pixel, on and between pixel centres, odd and even frames): the starting values of the
